@@ -246,3 +246,19 @@ pub fn check_extended(c: &[[u8; 32]; 4]) -> Result<Pt, &'static str> {
     let zi = z.inv();
     Ok(Pt { x: x.mul(&zi), y: y.mul(&zi) })
 }
+
+/// The table the library documents as EIGHT_TORSION: element i is [i]P for a generator P of E[8].
+/// Which of the four generators is not derivable from the statement; the widely published order-8
+/// point with encoding c7176a70...037a (element 1 of the published table) is taken as the anchor, the other seven are derived (checked against the model's own E[8] in selfcheck).
+pub fn torsion_table_documented() -> [Pt; 8] {
+    static T: std::sync::OnceLock<[Pt; 8]> = std::sync::OnceLock::new();
+    *T.get_or_init(|| {
+        let enc = crate::arr32(&crate::unhex("c7176a703d4dd84fba3c0b760d10670f2a2053fa2c39ccc64ec7fd7792ac037a"));
+        let g = Pt::decode(&enc).expect("order-8 generator decodes");
+        let mut out = [Pt::IDENTITY; 8];
+        for i in 1..8 {
+            out[i] = out[i - 1].add(&g);
+        }
+        out
+    })
+}
